@@ -54,9 +54,45 @@ type vResult struct {
 	group   string
 	flatten int // 0 = not flattened, n>0 = flattened slice of n-1 elements
 	form    int // 0 positional (name/group from the Provide options), 1 field of the result object
+	as      int // 0 none, 1 = As(vI0), 2 = As(vI0, vI1); the Go type is then *vA
 }
 
 func (r *vResult) key() vKey { return vKey{t: r.t, name: r.name, group: r.group} }
+
+// keys lists every key the result is provided under.
+func (r *vResult) keys() []vKey {
+	switch r.as {
+	case 1:
+		return []vKey{{t: vI0Type, name: r.name, group: r.group}}
+	case 2:
+		return []vKey{{t: vI0Type, name: r.name, group: r.group}, {t: vI1Type, name: r.name, group: r.group}}
+	}
+	return []vKey{r.key()}
+}
+
+func (r *vResult) hasKey(k vKey) bool {
+	for _, rk := range r.keys() {
+		if rk.eq(k) {
+			return true
+		}
+	}
+	return false
+}
+
+// concrete types for As
+type vA struct{ Tok int64 }
+
+func (*vA) vM0() {}
+func (*vA) vM1() {}
+
+type vI0 interface{ vM0() }
+type vI1 interface{ vM1() }
+
+var (
+	vAType  = reflect.TypeOf(&vA{})
+	vI0Type = reflect.TypeOf((*vI0)(nil)).Elem()
+	vI1Type = reflect.TypeOf((*vI1)(nil)).Elem()
+)
 
 type vFunc struct {
 	id       int
@@ -70,6 +106,7 @@ type vFunc struct {
 	fault    [3]int // outcome of execution 0,1,2
 	optName  string
 	optGroup string
+	optAs    int
 
 	// Go-level layout
 	typ      reflect.Type
@@ -282,6 +319,8 @@ type vWorld struct {
 	inv     *vClosure
 	log     []string // per-operation observation log
 	seg     []string
+	resCyc  bool
+	permCyc bool
 }
 
 func (w *vWorld) record(s string) {
@@ -376,6 +415,9 @@ func (w *vWorld) isAncestorOrSelf(a, s int) bool {
 func vReadRecv(v reflect.Value) vRecv {
 	if v.IsNil() {
 		return vRecv{isNil: true}
+	}
+	if v.Kind() == reflect.Interface {
+		v = v.Elem()
 	}
 	return vRecv{ptr: v.Pointer(), tok: v.Elem().Field(0).Int()}
 }
@@ -555,6 +597,12 @@ func (f *vFunc) provideOpts(r *vReg, w *vWorld) []ProvideOption {
 	}
 	if f.export {
 		opts = append(opts, Export(true))
+	}
+	switch f.optAs {
+	case 1:
+		opts = append(opts, As(new(vI0)))
+	case 2:
+		opts = append(opts, As(new(vI0), new(vI1)))
 	}
 	if f.callback {
 		opts = append(opts, WithProviderCallback(func(ci CallbackInfo) { r.cbs = append(r.cbs, ci) }))
